@@ -15,6 +15,7 @@ import (
 
 func init() {
 	Registry["C12"] = c12
+	SelfTests["C12"] = c12selftest
 }
 
 // signalTransparent checks one loop over a traveler/lookup channel: the first
@@ -219,13 +220,14 @@ func refersTo2(info *types.Info, n ast.Node, o types.Object) bool {
 func c12(p *core.Prog, res *core.Result) {
 	res.Explanation = "C12 (structural clauses): M1 signal transparency — every step that may stand between a mark and a jump, and every lookup of the embedded driver, forwards a signal traveler (or a lookup referring to one) as the first thing it does with it, on the same channel as ordinary results, and does nothing else with it; " +
 		"M2 counters live on copies — set, increment and the emitting jump write only into travelers whose current element and marks are private copies (BaseTraveler.Copy must copy both); " +
-		"M4 inside Jump's signal branch every send to the jump queue is guarded by a comparison of the signal's destination with the jump's own mark (the mark counts returns of its own signals); M5 the second stage of every lookup step either tests IsSignal on the lookup's traveler first or applies only traveler constructors that copy the Signal field; M3 the variables the jump queue shares between its goroutines are guarded (shared with C17)."
+		"M4 inside Jump's signal branch every send to the jump queue is guarded by a comparison of the signal's destination with the jump's own mark (the mark counts returns of its own signals); M5 the second stage of every lookup step either tests IsSignal on the lookup's traveler first or applies only traveler constructors that copy the Signal field; M3 the variables the jump queue shares between its goroutines are guarded (shared with C17); M6 the jump queue is an unbounded buffer — the goroutine that takes travelers off the queue input neither communicates with nor waits for the reader (no send, receive, blocking select, waiting primitive or loop on shared state), and no queue goroutine blocks while holding the mutex the intake needs."
 	res.NotDecided = []string{"the termination-detection protocol of JumpMark (signal counting) under all interleavings — a model-checking question over five goroutines", "the position of a forwarded signal relative to rows buffered inside fan-out steps (both, aggregate)", "that no traveler is lost or duplicated while the loop shuts down"}
 	res.Rule("M1", "signals are forwarded first and untouched by every loop-body step and lookup", 25)
 	res.Rule("M2", "set/increment/emit write only into private copies", 3)
 	res.Rule("M3", "jump queue: shared locals guarded", 1)
 	res.Rule("M4", "a jump queues only the signals of its own mark", 1)
 	res.Rule("M5", "steps that build travelers from lookup results keep the signal", 4)
+	res.Rule("M6", "the jump queue's intake never waits for its reader (unbounded buffer)", 3)
 
 	proc := p.Iface("gdbi", "Processor")
 	if proc == nil {
@@ -404,9 +406,12 @@ func c12(p *core.Prog, res *core.Result) {
 			res.OK("M2", "engine/logic.Jump.Process|emit", p.Pos(jf.Decl.Pos()), "emits a copy whose current element and marks are private")
 		}
 	}
-	// M3
+	// M3, M6
 	if qf := p.Func("engine/queue", "New"); qf != nil {
 		c17captured(p, res, qf, "M3")
+		c12queueUnbounded(p, res, qf, "M6")
+	} else {
+		res.Fail("engine/queue.New not found")
 	}
 }
 
@@ -579,4 +584,338 @@ func c12lookupStage(p *core.Prog, res *core.Result, fi *core.FuncInfo, fresh map
 		return true
 	})
 	return n
+}
+
+// c12waitingCallee names the library calls that make a goroutine wait for another one.
+var c12waitingCallee = map[string]string{
+	"(*sync.Cond).Wait":      "waits on a condition variable",
+	"(*sync.WaitGroup).Wait": "waits for other goroutines",
+	"time.Sleep":             "sleeps",
+	"runtime.Gosched":        "yields in a polling loop",
+	"time.After":             "waits on a timer",
+	"time.Tick":              "waits on a ticker",
+}
+
+// c12blockingOps lists, for one CFG node, the operations that can block on
+// another goroutine: channel sends and receives, selects without a default
+// arm, and the waiting library calls.  Function literals are not entered.
+func c12blockingOps(info *types.Info, n ast.Node, chanRanges map[ast.Expr]bool) []string {
+	var out []string
+	if e, ok := n.(ast.Expr); ok && chanRanges[e] {
+		out = append(out, "receives from "+types.ExprString(e)+" (range)")
+	}
+	ast.Inspect(n, func(x ast.Node) bool {
+		switch s := x.(type) {
+		case *ast.FuncLit:
+			return false
+		case *ast.SendStmt:
+			out = append(out, "sends on "+types.ExprString(s.Chan))
+		case *ast.UnaryExpr:
+			if s.Op == token.ARROW {
+				out = append(out, "receives from "+types.ExprString(s.X))
+			}
+		case *ast.SelectStmt:
+			hasDefault := false
+			for _, c := range s.Body.List {
+				if cc, ok := c.(*ast.CommClause); ok && cc.Comm == nil {
+					hasDefault = true
+				}
+			}
+			if hasDefault {
+				// non-blocking poll: the arms' communications do not wait; their bodies are separate nodes
+				return false
+			}
+			out = append(out, "select without default")
+			return false
+		case *ast.CallExpr:
+			if fn := core.CalleeFunc(info, s); fn != nil {
+				if why, ok := c12waitingCallee[fn.FullName()]; ok {
+					out = append(out, fn.FullName()+" "+why)
+				}
+			}
+		}
+		return true
+	})
+	return out
+}
+
+// c12queueUnbounded (M6): the jump queue decouples the jump from the mark only
+// if its intake accepts every traveler without waiting for the reader.  In the
+// constructor of the queue:
+//   - the goroutine that ranges over the input channel performs no channel
+//     communication other than that range, calls no waiting primitive, and has
+//     no loop whose condition depends on state outside the goroutine (a wait
+//     loop on the reader's progress);
+//   - no goroutine performs a blocking operation while it holds a mutex (the
+//     intake needs the mutex to append, so a reader blocked on its bounded
+//     output while holding it stalls the intake).
+func c12queueUnbounded(p *core.Prog, res *core.Result, fi *core.FuncInfo, rule string) {
+	info := fi.Pkg.TypesInfo
+	fkey := core.FuncKey(fi.Obj)
+	res.Fn(fkey)
+	lits := goroutineLits(fi.Decl.Body)
+	chanRanges := map[ast.Expr]bool{}
+	// channels some code of the constructor sends on (or closes) are internal
+	// hand-overs between its goroutines, not the queue's input
+	internal := map[string]bool{}
+	ast.Inspect(fi.Decl.Body, func(x ast.Node) bool {
+		if s, ok := x.(*ast.SendStmt); ok {
+			internal[types.ExprString(s.Chan)] = true
+		}
+		return true
+	})
+	var intake []*ast.FuncLit
+	intakeLoop := map[*ast.FuncLit]*ast.RangeStmt{}
+	for _, l := range lits {
+		ast.Inspect(l.Body, func(x ast.Node) bool {
+			if fl, ok := x.(*ast.FuncLit); ok && fl != l {
+				return false
+			}
+			if rs, ok := x.(*ast.RangeStmt); ok {
+				if t := info.TypeOf(rs.X); t != nil && isChanType(t) && !internal[types.ExprString(rs.X)] {
+					if intakeLoop[l] == nil {
+						intakeLoop[l] = rs
+						intake = append(intake, l)
+					} else {
+						chanRanges[rs.X] = true // a second channel range in the same goroutine is a wait
+					}
+				}
+			}
+			return true
+		})
+	}
+	if len(intake) == 0 {
+		res.Unres(rule, fkey+"|intake", p.Pos(fi.Decl.Pos()), "no goroutine ranging over the queue's input channel found: cannot tell whether the queue accepts travelers without waiting for its reader")
+		return
+	}
+	for i, l := range intake {
+		key := fmt.Sprintf("%s|intake#%d", fkey, i+1)
+		var probs []string
+		loop := intakeLoop[l]
+		// communications and waiting calls anywhere in the intake goroutine
+		var visit func(n ast.Node)
+		visit = func(n ast.Node) {
+			ast.Inspect(n, func(x ast.Node) bool {
+				switch s := x.(type) {
+				case *ast.FuncLit:
+					return s == l
+				case *ast.RangeStmt:
+					if s != loop {
+						if t := info.TypeOf(s.X); t != nil && isChanType(t) {
+							probs = append(probs, fmt.Sprintf("%s: receives from %s (range)", p.Pos(s.Pos()), types.ExprString(s.X)))
+						}
+					}
+				case *ast.ForStmt:
+					if why := c12waitLoop(info, l, s); why != "" {
+						probs = append(probs, fmt.Sprintf("%s: %s", p.Pos(s.Pos()), why))
+					}
+				case *ast.CallExpr:
+					if fn := core.CalleeFunc(info, s); fn != nil {
+						if why, ok := c12waitingCallee[fn.FullName()]; ok {
+							probs = append(probs, fmt.Sprintf("%s: %s %s", p.Pos(s.Pos()), fn.FullName(), why))
+						}
+					}
+				case *ast.SendStmt:
+					probs = append(probs, fmt.Sprintf("%s: sends on %s", p.Pos(s.Pos()), types.ExprString(s.Chan)))
+				case *ast.UnaryExpr:
+					if s.Op == token.ARROW {
+						probs = append(probs, fmt.Sprintf("%s: receives from %s", p.Pos(s.Pos()), types.ExprString(s.X)))
+					}
+				case *ast.SelectStmt:
+					hasDefault := false
+					for _, c := range s.Body.List {
+						if cc, ok := c.(*ast.CommClause); ok && cc.Comm == nil {
+							hasDefault = true
+						}
+					}
+					if !hasDefault {
+						probs = append(probs, fmt.Sprintf("%s: select without default", p.Pos(s.Pos())))
+					}
+					// the arms' communications are part of the select; their bodies are ordinary code
+					for _, c := range s.Body.List {
+						if cc, ok := c.(*ast.CommClause); ok {
+							for _, b := range cc.Body {
+								visit(b)
+							}
+						}
+					}
+					return false
+				}
+				return true
+			})
+		}
+		visit(l.Body)
+		if len(probs) > 0 {
+			res.Bad(rule, key, p.Pos(loop.Pos()), fmt.Sprintf("the goroutine that takes travelers off %s can wait for the reader of the queue (%s): the queue is no longer unbounded, so when more travelers go round the loop than the channel buffers of the cycle hold, Jump blocks on the queue input, the loop body backs up, the mark blocks on its output and never reads the queue again — the traversal hangs", types.ExprString(loop.X), strings.Join(probs, "; ")), probs...)
+		} else {
+			res.OK(rule, key, p.Pos(loop.Pos()), "intake accepts every traveler without communicating with or waiting for the reader")
+		}
+	}
+	// no blocking operation under a mutex, in any goroutine of the constructor
+	for i, l := range lits {
+		key := fmt.Sprintf("%s|locked#%d", fkey, i+1)
+		var probs []string
+		fl := &core.Flow{Prog: p, Info: info, Body: l.Body}
+		fl.Events = func(n ast.Node, st *core.State) ([]string, bool) {
+			if _, ok := n.(*ast.DeferStmt); ok {
+				return nil, false
+			}
+			var ev []string
+			for _, c := range core.CallsIn(n) {
+				if sel, ok := c.Fun.(*ast.SelectorExpr); ok {
+					switch sel.Sel.Name {
+					case "Lock", "RLock":
+						ev = append(ev, "lock:"+types.ExprString(sel.X))
+					case "Unlock", "RUnlock":
+						ev = append(ev, "-lock:"+types.ExprString(sel.X))
+					}
+				}
+			}
+			return ev, false
+		}
+		fl.Run()
+		cr := map[ast.Expr]bool{}
+		ast.Inspect(l.Body, func(x ast.Node) bool {
+			if rs, ok := x.(*ast.RangeStmt); ok {
+				if t := info.TypeOf(rs.X); t != nil && isChanType(t) {
+					cr[rs.X] = true
+				}
+			}
+			return true
+		})
+		seen := map[string]bool{}
+		fl.Walk(func(n ast.Node, st *core.State, b *cfg.Block) {
+			var held []string
+			for h := range st.Held {
+				if strings.HasPrefix(h, "lock:") {
+					held = append(held, strings.TrimPrefix(h, "lock:"))
+				}
+			}
+			if len(held) == 0 {
+				return
+			}
+			if _, ok := n.(*ast.DeferStmt); ok {
+				return
+			}
+			for _, o := range c12blockingOps(info, n, cr) {
+				m := fmt.Sprintf("%s: %s while holding %s", p.Pos(n.Pos()), o, strings.Join(held, ","))
+				if !seen[m] {
+					seen[m] = true
+					probs = append(probs, m)
+				}
+			}
+		})
+		if len(probs) > 0 {
+			res.Bad(rule, key, p.Pos(l.Pos()), fmt.Sprintf("a goroutine of the queue blocks on another goroutine while it holds the queue's mutex (%s): the intake needs that mutex to append, so it stalls exactly when the reader cannot deliver — the queue stops being an unbounded buffer and the mark/jump cycle can deadlock with travelers in flight", strings.Join(probs, "; ")), probs...)
+		} else {
+			res.OK(rule, key, p.Pos(l.Pos()), "no blocking operation while a mutex is held")
+		}
+	}
+}
+
+// c12waitLoop reports why a for statement inside the intake goroutine lit is a
+// wait loop: it has no condition, or its condition reads anything that is not
+// a variable declared inside the goroutine (shared state or a call).
+func c12waitLoop(info *types.Info, lit *ast.FuncLit, fs *ast.ForStmt) string {
+	if fs.Cond == nil {
+		hasExit := false
+		ast.Inspect(fs.Body, func(x ast.Node) bool {
+			switch x.(type) {
+			case *ast.FuncLit:
+				return false
+			case *ast.BranchStmt, *ast.ReturnStmt:
+				hasExit = true
+			}
+			return true
+		})
+		if !hasExit {
+			return "endless loop in the intake"
+		}
+	}
+	why := ""
+	check := func(e ast.Expr) {
+		if e == nil {
+			return
+		}
+		ast.Inspect(e, func(x ast.Node) bool {
+			switch s := x.(type) {
+			case *ast.CallExpr:
+				if id, ok := s.Fun.(*ast.Ident); ok {
+					if _, isB := info.Uses[id].(*types.Builtin); isB {
+						return true // len/cap of a variable: judged by the variable
+					}
+				}
+				why = "loop condition calls " + types.ExprString(s.Fun)
+			case *ast.Ident:
+				if v, ok := info.Uses[s].(*types.Var); ok {
+					if v.Pos() < lit.Pos() || v.Pos() > lit.End() {
+						why = "loop waits on " + s.Name + ", which lives outside the intake goroutine (`for " + types.ExprString(e) + "`)"
+					}
+				}
+			}
+			return true
+		})
+	}
+	check(fs.Cond)
+	if why == "" && fs.Cond == nil {
+		// exits decided inside the body: look at the conditions guarding them
+		ast.Inspect(fs.Body, func(x ast.Node) bool {
+			if is, ok := x.(*ast.IfStmt); ok {
+				esc := false
+				ast.Inspect(is.Body, func(y ast.Node) bool {
+					switch y.(type) {
+					case *ast.BranchStmt, *ast.ReturnStmt:
+						esc = true
+					}
+					return true
+				})
+				if esc {
+					check(is.Cond)
+				}
+			}
+			return true
+		})
+	}
+	return why
+}
+
+func c12selftest(st *core.Prog, res *core.Result) {
+	pk := st.Pkg(core.SelfMod + "/c12")
+	if pk == nil {
+		res.Fail("C12 self-test package did not load")
+		return
+	}
+	n := 0
+	for _, fi := range st.AllDecls() {
+		if fi.Pkg != pk || fi.Decl.Recv != nil {
+			continue
+		}
+		name := fi.Obj.Name()
+		var want core.Status
+		switch {
+		case strings.HasPrefix(name, "Ok"):
+			want = core.Discharged
+		case strings.HasPrefix(name, "Bad"):
+			want = core.Violated
+		default:
+			continue
+		}
+		tmp := core.NewResult("C12", "self")
+		c12queueUnbounded(st, tmp, fi, "M6")
+		got := core.Discharged
+		for _, o := range tmp.Obls {
+			if o.Status != core.Discharged {
+				got = core.Violated
+			}
+		}
+		n++
+		if got != want {
+			res.Fail("self-test %s: M6 gave %s, expected %s", name, got, want)
+		} else {
+			res.OKTrivial("SELF", "selftest|c12."+name, "-", "M6 gives "+string(got)+" as expected")
+		}
+	}
+	if n < 6 {
+		res.Fail("C12 self-test: only %d examples found", n)
+	}
 }
